@@ -244,6 +244,19 @@ CLAIMS["C04"] = dict(
     technique="exhaustiveness over parameter locations + data-dependence of emitted call arguments + guard-conjunct analysis on the CFG + provenance of template holes",
     ref="3/C04",
 )
+CLAIMS["C02"] = dict(
+    text="Equality of model field sets for all schema graphs and declaration orders is not decided (that needs an independent resolver). "
+    "Decided on the parser/generator code: (1) return-value provenance - after `schema_ir = IRSchema(...)` every normal return of "
+    "_parse_schema returns that object (the early `return existing_in_context` is a recorded finding: order [User, UserGroup] leaves "
+    "User without fields); (2) non-interference - cycle-handling decisions never test the *text* of schema names (seven "
+    "substring/prefix/suffix tests are recorded findings, each with an order-dependent witness); (3) loop-path completeness - every "
+    "iteration of _parse_properties assigns the property or takes one of two enumerated skips; the allOf merge takes `properties` and "
+    "`required` from every member on every path; the dataclass generator's property loop has no skip and its list is unfiltered; (4) "
+    "required-ness comes only from `prop_name in schema.required` and defaults are computed only under `not is_required`; (5) every "
+    "path from construction to `return schema_ir` registers the schema unless one of four enumerated flags holds.",
+    technique="return-value provenance on the CFG + non-interference (name-content) lint + must-pass-through on loop bodies with enumerated bypasses",
+    ref="3/C02",
+)
 
 NOT_APPLICABLE = {}
 
